@@ -187,7 +187,7 @@ class Section(Entity):
         if not isinstance(obj, Section):
             raise TypeError("Object to be copied is not a Section")
 
-        if obj._sec_parent:
+        if obj.parent is not None:
             src = "{}/{}".format("sections", obj.name)
         else:
             src = "{}/{}".format("metadata", obj.name)
